@@ -103,7 +103,7 @@ func cmdCheck(args []string) int {
 		}
 	}
 	for _, s := range sel {
-		if s.fn.Parent() != nil && !inPlace[s.fn] {
+		if s.fn.Parent() != nil && (!inPlace[s.fn] || cs.Funcs[FuncPkgPath(s.fn)+"."+FuncKey(s.fn)] != nil) {
 			run(s)
 		}
 	}
@@ -148,6 +148,8 @@ func cmdCheck(args []string) int {
 		}
 	}
 	var newBaseline []string
+	replays := 0
+	const maxReplays = 6
 	for _, g := range groups {
 		solverSecs += g.Seconds
 		isStale := false
@@ -189,7 +191,13 @@ func cmdCheck(args []string) int {
 		case "failed":
 			total++
 			o := g.firstFailing()
-			rep := tryReplay(L, id, g, o)
+			var rep *ReplayResult
+			if replays < maxReplays {
+				rep = tryReplay(L, id, g, o)
+				replays++
+			} else {
+				rep = &ReplayResult{Summary: fmt.Sprintf("replay skipped: more than %d failing obligations in this run", maxReplays)}
+			}
 			path := writeReplayFile(id, o, rep, "")
 			suffix := ""
 			if rep == nil || !rep.Reproduced {
